@@ -980,10 +980,11 @@ class ArgumentParser(ParserDeprecations, ActionsContainer, ArgumentLinking, argp
     def _get_default_config_files(self) -> List[Tuple[Optional[str], Path]]:
         default_config_files = []
 
-        for key, parser in parent_parsers.get():
-            for pattern in parser.default_config_files:
-                files = sorted(glob.glob(os.path.expanduser(pattern)))
-                default_config_files += [(key, v) for v in files]
+        if not getattr(self, "_inner_parser", False):  # parsers of nested class values have no parent section
+            for key, parser in parent_parsers.get():
+                for pattern in parser.default_config_files:
+                    files = sorted(glob.glob(os.path.expanduser(pattern)))
+                    default_config_files += [(key, v) for v in files]
 
         for pattern in self.default_config_files:
             files = sorted(glob.glob(os.path.expanduser(pattern)))
